@@ -4,6 +4,7 @@ package sym
 
 import (
 	"fmt"
+	"net/url"
 	"go/types"
 	"math/big"
 	"strings"
@@ -215,6 +216,14 @@ func registerIntrinsics(p *Program) {
 		args := strSliceOf(a[1])
 		if _, ok := UFs[name]; !ok {
 			panic(Inconclusive{"unknown UF " + name})
+		}
+		if len(args) == 1 && args[0].IsConst() {
+			switch name { // concrete arguments: the real function
+			case "qescape":
+				return StrC(url.QueryEscape(args[0].S))
+			case "pescape":
+				return StrC(url.PathEscape(args[0].S))
+			}
 		}
 		return App(name, SStr, args...)
 	}
